@@ -9,7 +9,7 @@
 From Coq Require Import List Bool Arith.
 Import ListNotations.
 From LV Require Import Graph.Graph Graph.GraphProofs Graph.GraphMemo Graph.Simulate Graph.SimulateProofs
-  Graph.SimulateExamples.
+  Graph.SimulateExamples Graph.SimulateOrder.
 
 (* The repaired code (variant RefreshInputs), any auto-update setting: simulate does not raise, keeps the
    auto setting and the invariant of C01; [joint]: every visited variable holds the draw of its sampler
@@ -257,3 +257,11 @@ Example C17_example_skip :
   snd r = false /\ getv 0 (vals (cur (fst r))) 1 = 111 /\ getv 0 (vals (cur (fst r))) 5 = 3.
 Proof. exact exA_skip. Qed.
 Print Assumptions C17_example_skip.
+
+(* the boolean order checker run by the correspondence (result code 9 of CorrC17.v) accepts a visiting order
+   exactly when the order meets the hypothesis [order_ok] of the theorems above: a rejected order is one the
+   theorems do not cover, an accepted one is covered (Graph/SimulateOrder.v) *)
+Theorem C17_order_checker_exact : forall F (g : graph F), wf g ->
+  forall act, order_okb g act = true <-> order_ok g act.
+Proof. intros F g W act. exact (order_okb_iff g W act). Qed.
+Print Assumptions C17_order_checker_exact.
